@@ -252,6 +252,20 @@ func (vm *VM) DeclareConstElement(name *IDName, elem Element) error {
 	return scope.DeclareConstValue(name.GetLiteral(), elem)
 }
 
+// RedeclareConstElement - like DeclareConstElement, but a symbol of that name at the current
+// level (e.g. an imported one) is replaced
+func (vm *VM) RedeclareConstElement(name *IDName, elem Element) error {
+	scope := vm.getCurrentScope()
+	nameStr := name.GetLiteral()
+	if scope == nil {
+		return zerr.NameNotDefined(nameStr)
+	}
+	if _, inGlobals := vm.globals[nameStr]; inGlobals {
+		return zerr.NameRedeclared(nameStr)
+	}
+	return scope.RedeclareConstValue(nameStr, elem)
+}
+
 func (vm *VM) DeclareExternalElement(name *IDName, elem Element, module *Module) error {
 	scope := vm.getCurrentScope()
 	nameStr := name.GetLiteral()
